@@ -129,7 +129,9 @@ func appendTokensForValue(val cty.Value, toks Tokens) Tokens {
         i := 0
         for it := val.ElementIterator(); it.Next(); {
             eKey, eVal := it.Element()
-            if hclsyntax.ValidIdentifier(eKey.AsString()) {
+            // A key that reads "for" right after the opening brace would be
+            // taken for a for-expression, so that one is always quoted.
+            if hclsyntax.ValidIdentifier(eKey.AsString()) && eKey.AsString() != "for" {
                 toks = append(toks, &Token{
                     Type:  hclsyntax.TokenIdent,
                     Bytes: []byte(eKey.AsString()),
